@@ -6,3 +6,7 @@ import SmtpV.Props.C20
 #print axioms SmtpV.Props.C20.pinned_tree_counterexample
 #print axioms SmtpV.Props.C20.pinned_tree_leak
 #print axioms SmtpV.Props.C20.C20_close_ends_everything
+#print axioms SmtpV.Props.C20.C20_late_start_no_panic
+#print axioms SmtpV.Props.C20.C20_late_start_never_calls
+#print axioms SmtpV.Props.C20.C20_late_start_pinned_panics
+#print axioms SmtpV.Props.C20.C20_late_start_window_remains
